@@ -286,8 +286,47 @@ def check_C05(ctx, unit, config=""):
 
 # ------------------------------------------------------------------ N: fallible results
 
+def struct_aliases(fn):
+    """{decl id: decl id}: a local of class type that is initialised as a copy of another local of class type (also:
+    from the value a virtually inlined helper returns) designates the same field values."""
+    out = {}
+    for x in fn.all_nodes():
+        if x.kind == "DeclStmt":
+            for d in x.get("decls", []):
+                if "init" not in d:
+                    continue
+                v = std_unwrap(fn.node(d["init"]))
+                hops = 0
+                while v.kind in ("CXXConstructExpr", "CXXTemporaryObjectExpr", "MaterializeTemporaryExpr", "ExprWithCleanups") and hops < 6:
+                    a = v.args if v.kind in ("CXXConstructExpr", "CXXTemporaryObjectExpr") else v.children
+                    if len(a) != 1:
+                        break
+                    v, hops = std_unwrap(a[0]), hops + 1
+                if v.kind == "DeclRefExpr" and v.get("local") and hops > 0:
+                    out[d["d"]] = v.d["d"]
+    return out
+
+
+def place_of(n, alias=None):
+    """(decl id, field | None) of a local or of a field of a local of class type; None otherwise."""
+    x = n.strip()
+    did = fld = None
+    if x.kind == "DeclRefExpr" and x.get("local"):
+        did = x.d["d"]
+    elif x.kind == "MemberExpr" and x.get("mk") == "Field" and not x.get("arrow") and x.children:
+        b = x.children[0].strip()
+        if b.kind == "DeclRefExpr" and b.get("local"):
+            did, fld = b.d["d"], x.m
+    if did is None:
+        return None
+    hops = 0
+    while alias and did in alias and hops < 6:
+        did, hops = alias[did], hops + 1
+    return (did, fld)
+
+
 def bound_var(fn, call):
-    """The local the result of `call` is bound to: ('var', did, binding element) / ('return', node) / None."""
+    """The place the result of `call` is bound to: ('var', did | (did, field), binding element) / ('return', node) / None."""
     n = call
     p = fn.parent(n)
     while p is not None and (p.kind in ("ImplicitCastExpr", "ParenExpr", "CStyleCastExpr", "CXXStaticCastExpr",
@@ -309,6 +348,9 @@ def bound_var(fn, call):
         l = p.children[0].strip()
         if l.kind == "DeclRefExpr" and l.get("local"):
             return ("var", l.d["d"], p)
+        pl = place_of(l)
+        if pl is not None and pl[1] is not None:
+            return ("var", pl, p)          # a field of a local struct (e.g. a result record that is returned by value)
     if p.kind == "ReturnStmt":
         return ("return", p)
     return None
@@ -328,6 +370,8 @@ def check_fallible(ctx, rule, unit, fn, calls, label, allowed_in_null=()):
             ctx.inst(rule, names[call.id], True, call.loc, "result is returned unchanged (nullness propagates)", fn)
             continue
         did, bind = b[1], b[2]
+        alias = struct_aliases(fn)
+        place = did if isinstance(did, tuple) else (did, None)
         problems = []
         tested = [False]
         cond_ids = set()
@@ -337,8 +381,22 @@ def check_fallible(ctx, rule, unit, fn, calls, label, allowed_in_null=()):
                     cond_ids.add(x.id)
 
         def is_x(n):
-            n = n.strip()
-            return n.kind == "DeclRefExpr" and n.d["d"] == did
+            return place_of(n, alias) == place
+
+        def harmless_read(n):
+            """The read only feeds arithmetic whose result goes into a local (or a field of a local): nothing is
+            dereferenced, passed on or made visible before the test."""
+            q, hops = fn.parent(n), 0
+            while q is not None and hops < 30:
+                if q.is_call() or q.kind in ("CXXNewExpr", "ArraySubscriptExpr", "ReturnStmt") or \
+                        (q.kind == "UnaryOperator" and q.op == "*") or (q.kind == "MemberExpr" and q.get("arrow")):
+                    return False
+                if q.kind == "BinaryOperator" and q.op == "=":
+                    return place_of(q.children[0]) is not None
+                if q.kind == "DeclStmt":
+                    return True
+                q, hops = fn.parent(q), hops + 1
+            return False
 
         def transfer(n, s):
             if n.id == bind.id:
@@ -350,8 +408,10 @@ def check_fallible(ctx, rule, unit, fn, calls, label, allowed_in_null=()):
             if n.kind == "BinaryOperator" and n.op == "=" and is_x(n.children[0]) and n.id != bind.id:
                 return [None]
             if s == "untested":
-                if n.kind == "DeclRefExpr" and n.d["d"] == did:
+                if n.kind in ("DeclRefExpr", "MemberExpr") and is_x(n):
                     par = fn.parent(n)
+                    if place[1] is None and par is not None and par.kind == "MemberExpr" and not par.get("arrow"):
+                        return [s]          # part of an access to a field of the local, judged at the field
                     # reading x: allowed only inside a branch condition or as `return x`
                     if n.id in cond_ids:
                         return [s]
@@ -362,7 +422,9 @@ def check_fallible(ctx, rule, unit, fn, calls, label, allowed_in_null=()):
                         return [s]
                     if par is not None and par.kind == "BinaryOperator" and par.op == "=" and par.children[0].id == n.id:
                         return [s]
-                    problems.append("%s used at %s before it was tested" % (n.n, n.loc))
+                    if harmless_read(n):
+                        return [s]
+                    problems.append("%s used at %s before it was tested" % (canon(n).split("#")[0], n.loc))
                 return [s]
             if s == "null":
                 if n.is_call() and not (n.callee and n.callee["uq"] in allowed_in_null):
